@@ -3,10 +3,11 @@
 (property text only — nothing from /verif)."""
 import json, sys, os
 ids = sys.argv[1:]
+SUF = os.environ.get('SEED_SUFFIX', '')
 props = {json.loads(l)['id']: json.loads(l) for l in open('/verif/properties.jsonl')}
 for pid in ids:
     p = props[pid]
-    wt = f'/tmp/seed/{pid}'
+    wt = f'/tmp/seed/{pid}{SUF}'
     txt = f"""# Task: seed a subtle, property-breaking change into a Go library
 
 You are working in a scratch git worktree of the Go library valyala/fasthttp at `{wt}`
@@ -50,15 +51,15 @@ break the property through different mechanisms / different code sites.
 
 ## Deliverables (write exactly these files)
 
-* `/tmp/seed/out/{pid}/m1/patch.diff`  — `git diff` of the library change only (no test file in it), applies with `git apply` to the clean tree
-* `/tmp/seed/out/{pid}/m1/demo_test.go` — the demonstration test (state at the top, in a comment, which package directory it belongs in, e.g. `// place in: .` or `// place in: fasthttputil`)
-* `/tmp/seed/out/{pid}/m1/NOTES.md` — 5–15 lines: what was changed, why it breaks the property, what it needs to manifest, the exact commands you ran and their outcome (suite with patch: pass; demo with patch: fail; demo without patch: pass)
-* the same three files under `/tmp/seed/out/{pid}/m2/`
+* `/tmp/seed/out/{pid}{SUF}/m1/patch.diff`  — `git diff` of the library change only (no test file in it), applies with `git apply` to the clean tree
+* `/tmp/seed/out/{pid}{SUF}/m1/demo_test.go` — the demonstration test (state at the top, in a comment, which package directory it belongs in, e.g. `// place in: .` or `// place in: fasthttputil`)
+* `/tmp/seed/out/{pid}{SUF}/m1/NOTES.md` — 5–15 lines: what was changed, why it breaks the property, what it needs to manifest, the exact commands you ran and their outcome (suite with patch: pass; demo with patch: fail; demo without patch: pass)
+* the same three files under `/tmp/seed/out/{pid}{SUF}/m2/`
 
 Before finishing: verify each patch from a clean state (`git -C {wt} checkout -- . && git -C {wt} clean -fdq`, then
 `git -C {wt} apply <patch>`), run the whole suite and the demo, then restore the clean state again. Leave the worktree clean
 (no modified or untracked files) when you are done. Your final message should be a 5-line summary of the two mutations.
 """
     os.makedirs('/tmp/seed/out', exist_ok=True)
-    open(f'/tmp/seed/{pid}.prompt.md', 'w').write(txt)
-    print('wrote', f'/tmp/seed/{pid}.prompt.md')
+    open(f'/tmp/seed/{pid}{SUF}.prompt.md', 'w').write(txt)
+    print('wrote', f'/tmp/seed/{pid}{SUF}.prompt.md')
